@@ -978,7 +978,19 @@ class StreamWorld(BaseWorld):
         a, b = ev['stream'], ev['other']
         if a == b:
             return False
-        return self.pkg_of[b] in universe.SUBPACKAGES[self.pkg_of[a]]
+        if self.pkg_of[b] not in universe.SUBPACKAGES[self.pkg_of[a]]:
+            return False
+        # stay inside non-negative flows: the other stream must be contained in this one
+        pa, pb = self.project(a), self.project(b)
+        if self.is_multi(a):
+            for ph, row in pb.rows.items():
+                if row.any():
+                    if ph not in pa.rows:
+                        return False
+                    if (pa.rows[ph] - self.mapped(b, a, row) < 0).any():
+                        return False
+            return True
+        return bool((pa.total() - self.mapped(b, a, pb.total()) >= 0).all())
 
     pre_isub = pre_separate_out
 
@@ -1792,7 +1804,7 @@ class StreamWorld(BaseWorld):
         a = ev['stream']
         sa = self.streams[a]
         before = self.project(a)
-        r = self.call(ev, lambda: pickle.loads(pickle.dumps(sa)))
+        r = self.call(ev, lambda: restart_copy(sa))
         if r[0] == 'exc':
             return self.unexpected(ev, r, 'restart')
         self.streams[a] = r[1]
@@ -2001,7 +2013,7 @@ class StreamWorld(BaseWorld):
         shared = self.may_share(a, b)
         ids = ev['ids']
         IDs = ... if ids == '...' else (tuple(ids) if isinstance(ids, list) else ids)
-        r = self.call(ev, lambda: sa.copy_flow(sb, IDs, remove=ev['remove'], exclude=ev['exclude']))
+        r = self.call(ev, lambda: sa.copy_flow(sb, IDs=IDs, remove=ev['remove'], exclude=ev['exclude']))
         self.touch(a, b)
         if r[0] == 'exc':
             return self.unexpected(ev, r, 'copy_flow')
@@ -2022,7 +2034,10 @@ class StreamWorld(BaseWorld):
             moved = np.where(sel, tb, 0.0)
             moved_a = self.mapped(b, a, moved)
             sel_a = self.mapped(b, a, sel.astype(float)) > 0
-            want_a = np.where(sel_a, moved_a, pa.total())
+            if ids == '...':
+                want_a = moved_a      # all flows are replaced by the other stream's
+            else:
+                want_a = np.where(sel_a, moved_a, pa.total())
             if not close(na.total(), want_a):
                 self.fail('copy_flow-receiver', f'{a}.copy_flow({b},{ids},remove={ev["remove"]},exclude={ev["exclude"]}): '
                           f'receiver totals {na.total().tolist()} expected {want_a.tolist()}',
@@ -2064,6 +2079,30 @@ class StreamWorld(BaseWorld):
         if self.prop == 'C11':
             for name in sorted(self.streams):
                 self.check_views(name, {'op': 'finish'})
+
+
+class _Pickler(pickle.Pickler):
+    """A flowsheet is saved as a whole: property packages keep their identity."""
+
+    def persistent_id(self, obj):
+        if isinstance(obj, tmo.Thermo):
+            for pid in universe.PACKAGES:
+                if universe.package(pid).thermo is obj:
+                    return ('thermo', pid)
+        return None
+
+
+class _Unpickler(pickle.Unpickler):
+    def persistent_load(self, pid):
+        return universe.package(pid[1]).thermo
+
+
+def restart_copy(obj):
+    import io
+    buf = io.BytesIO()
+    _Pickler(buf, protocol=pickle.HIGHEST_PROTOCOL).dump(obj)
+    buf.seek(0)
+    return _Unpickler(buf).load()
 
 
 FAULTABLE = {'read_prop', 'mix_from', 'set_total', 'read_total', 'set_flow', 'read_flow', 'sum', 'separate_out'}
